@@ -79,6 +79,35 @@ func exactTallyO(yes, no, abstain, veto, other, actors uint64) string {
 	return "unknown"
 }
 
+// c08Quorum: IsQuorum as a function, differential against the model (also run inside the C19 check: "only passed
+// proposals alter the properties" rests on the tally and the quorum test) - quorum values with up to 18 decimals, vote
+// counts on both sides of the threshold, plus the property's own reading in exact integers
+func c08Quorum(r *Rec) {
+	r.Mark("quorum")
+	for _, q := range []string{"0", "0.33", "0.333333333333333333", "0.5", "0.51", "1", "1.000000000000000001", "0.000000000000000001", "0.67", "0.334", "0.667", "0.3301", "0.999999999999999999"} {
+		for total := uint64(0); total <= 7; total++ {
+			for votes := uint64(0); votes <= total+1; votes++ {
+				qd := sdk.MustNewDecFromStr(q)
+				ok, err := govtypes.IsQuorum(qd, votes, total)
+				out := map[bool]string{true: "1", false: "0"}[ok]
+				if err != nil {
+					out = "err"
+				}
+				r.Op(fmt.Sprintf("gov quorum %s %d %d", q, votes, total), out)
+				r.Case(fmt.Sprintf("quorum/%s/%d/%d", q, votes, total), err == nil)
+				// exact reading: votes / total >= q  <=>  votes * 10^18 >= total * (q * 10^18)
+				if err == nil {
+					lhs := new(big.Int).Mul(new(big.Int).SetUint64(votes), new(big.Int).Exp(big.NewInt(10), big.NewInt(18), nil))
+					rhs := new(big.Int).Mul(new(big.Int).SetUint64(total), qd.BigInt())
+					if ok != (lhs.Cmp(rhs) >= 0) {
+						r.Fail(r.Prop+"/quorum/not-the-exact-ratio", fmt.Sprintf("IsQuorum(%s, %d votes, %d voters) = %v", q, votes, total, ok), nil)
+					}
+				}
+			}
+		}
+	}
+}
+
 func runC08(r *Rec) {
 	// ---------- A. the tally as a pure function: exhaustive small vectors, random large ones
 	r.Mark("tally exhaustive small")
@@ -168,20 +197,7 @@ func runC08(r *Rec) {
 	}
 
 	// ---------- B. quorum
-	r.Mark("quorum")
-	for _, q := range []string{"0", "0.33", "0.333333333333333333", "0.5", "0.51", "1", "1.000000000000000001", "0.000000000000000001", "0.67"} {
-		for total := uint64(0); total <= 7; total++ {
-			for votes := uint64(0); votes <= total+1; votes++ {
-				ok, err := govtypes.IsQuorum(sdk.MustNewDecFromStr(q), votes, total)
-				out := map[bool]string{true: "1", false: "0"}[ok]
-				if err != nil {
-					out = "err"
-				}
-				r.Op(fmt.Sprintf("gov quorum %s %d %d", q, votes, total), out)
-				r.Case(fmt.Sprintf("quorum/%s/%d/%d", q, votes, total), err == nil)
-			}
-		}
-	}
+	c08Quorum(r)
 
 	// ---------- B2. "completely or not at all": a content whose handler performs several writes and fails at a later one
 	// must leave no trace (the router applies it on a branch of the store and keeps the branch only on success)
